@@ -534,6 +534,106 @@ def check_seq_layout(P, ctx, rule='C04.layout'):
     ctx.floor(rule, 7)
 
 
+def check_list_count(P, ctx, rule='C04.count-tracks-links'):
+    """List: the element count changes by exactly the number of nodes linked minus the number unlinked, on every path of every
+    function (interprocedural: a helper that links/unlinks *and* counts is summarised by its own net effect, which must be the
+    same on all of its paths).  len, hash, copy and assign read the count; iteration, cmp and mem follow the links: when the two
+    drift apart the list is equal to one thing and hashes / copies as another."""
+    u = P.units['src/List.c']
+    CNT = ('arrow', ('param', 0), 'nitems')
+    PRIM = {'List_Link': (1, 0), 'List_Unlink': (-1, 0)}      # (nodes linked, count change) of the two primitives *before* their own bodies are looked at
+    summary = {}
+
+    def path_effect(fn, path, N):
+        dn = dc = 0
+        for ev in util.path_events(path):
+            if ev['t'] == 'write':
+                if N.canon(ev['lhs']) == CNT:
+                    if ev['op'] == '++':
+                        dc += 1
+                    elif ev['op'] == '--':
+                        dc -= 1
+                    elif ev['op'] == '=' and util.const_int(ev['rhs']) == 0:
+                        return 'reset'
+                    else:
+                        return None
+            elif ev['t'] == 'call' and ev['name'] in summary and summary[ev['name']] is not None:
+                if ev['args'] and N.canon(ev['args'][0]) == ('param', 0):
+                    a, b = summary[ev['name']]
+                    dn += a
+                    dc += b
+        return (dn, dc)
+
+    def summarise(name, seen=()):
+        if name in summary:
+            return summary[name]
+        fn = u['functions'].get(name)
+        if fn is None or fn.get('body') is None or name in seen:
+            return None
+        summary[name] = None
+        for c, _ in ir.all_calls(fn['body']):
+            cn = ir.callee_name(c)
+            if cn in u['functions'] and cn != name:
+                summarise(cn, seen + (name,))
+        g = P.cfg(fn)
+        N = util.Norm(P, fn)
+        effs = set()
+        for path in g.paths(max_visits=2, limit=20000):
+            if util.path_end(path)[0] == 'term':
+                continue
+            effs.add(path_effect(fn, path, N))
+        base = PRIM.get(name, (0, 0))
+        effs = {(e if not isinstance(e, tuple) else (e[0] + base[0], e[1] + base[1])) for e in effs}
+        summary[name] = effs
+        if len(effs) == 1 and isinstance(next(iter(effs)), tuple):
+            summary[name] = next(iter(effs))
+        else:
+            summary[name + '#paths'] = effs
+            summary[name] = None
+        return summary[name]
+    # helpers first (primitives and everything called with the list as first argument)
+    for name in sorted(u['functions']):
+        fn = u['functions'][name]
+        if fn.get('body') is None or not fn['params']:
+            continue
+        summarise(name)
+    n_ob = 0
+    for name in sorted(u['functions']):
+        fn = u['functions'][name]
+        if fn.get('body') is None or not fn['params']:
+            continue
+        g = P.cfg(fn)
+        N = util.Norm(P, fn)
+        touches = any(ir.callee_name(c) in ('List_Link', 'List_Unlink') or ir.callee_name(c) in summary and summary.get(ir.callee_name(c)) not in (None, (0, 0))
+                      for c, _ in ir.all_calls(fn['body'])) or name in PRIM or \
+            any(ev['t'] == 'write' and N.canon(ev['lhs']) == CNT for n in g.live() if n['expr'] is not None for ev in util.expr_events(n['expr'], n))
+        if not touches:
+            continue
+        ctx.fn(fn)
+        n_ob += 1
+        effs = summary.get(name + '#paths') or ({summary[name]} if summary.get(name) is not None else set())
+        bad = None
+        if name in PRIM:
+            # a primitive may keep the count itself (then its callers must not) or leave it to them: either way uniformly
+            ok = summary.get(name) is not None
+            if not ok:
+                bad = 'its paths differ in what they do to the count: %s' % sorted(map(str, effs))
+        else:
+            for e in effs:
+                if e == 'reset':
+                    continue       # clear: count set to 0 after every node was unlinked (C05.full-teardown)
+                if e is None:
+                    bad = 'the count is changed by something other than ++ / -- / = 0'
+                    break
+                if e[0] != e[1]:
+                    bad = 'a path links %+d node(s) net and changes the count by %+d' % (e[0], e[1])
+                    break
+            ok = bad is None
+        ctx.check(ok, rule, name, site(fn), 'on every path the element count changes by the number of nodes linked minus the number unlinked '
+                  '(helpers summarised by their own net effect)', [bad] if bad else None)
+    ctx.floor(rule, 6)
+
+
 def run(ctx, load):
     P = load(UNITS, 'default')
     ctx.stats['units'] = set(UNITS)
@@ -553,6 +653,7 @@ def run(ctx, load):
         o['rule'] = 'C04.fresh-slot'
     ctx.floors.pop(('C05.fresh-slot', ctx.config), None)
     ctx.floor('C04.fresh-slot', 5)
+    check_list_count(P, ctx)
 
 
 EXPLANATION = (
